@@ -5,6 +5,16 @@ ROOT = os.path.dirname(os.path.abspath(__file__))
 
 PBT = "property-based testing with proptest (choice-tape generators, 16 deterministic shards, shrinking, replay files)"
 CLAIMED = {
+ "C01": dict(
+  technique="stateful " + PBT + ": generated call histories over a pool of maps with a recurrence invariant and purity check, plus a two-process differential on the same seeded histories",
+  text="Exploration over call histories (decode, bpm x16, convert by value/ref/mut, difficulty, strains, performance, gradual walks, attribute builder) on tie-heavy and generic maps: a recurring call must give the bit-identical result regardless of what ran in between, no call modifies a borrowed map, and two separate processes produce identical digests.",
+  note="Per-process hash keys/ASLR vary between the two driver-spawned processes; within a process every HashMap::default() draws fresh keys.",
+  ref="DESIGN.md §4 C01"),
+ "C06": dict(
+  technique=PBT + " over mutated .osu texts and raw bytes (grammar-based generation + line/token/byte/encoding mutators) with a well-formedness validity predicate, a bytes/str/path round-trip differential and a tagged-sound metamorphic oracle; reference-model check of the sorters through the hook",
+  text="Exploration: decoding never panics and fails only with io::Error; every decoded map satisfies the ordering, pairing, strictness and clamp invariants; the three entry points agree; tagged lines keep their sound and stable order; the tandem sorter equals a stable reference sort.",
+  note="from_path is exercised on 1/8 of the cases through a temp file under /verif/.build/tmp.",
+  ref="DESIGN.md §4 C06"),
  "C02": dict(
   technique=PBT + "; differential oracle: gradual calculator vs one-shot passed_objects(i) on generated maps/settings",
   text="Exploration: generated maps of all modes/converts and Difficulty settings; every gradual value is compared field-by-field with the one-shot prefix calculation, the announced length with the produced count, the last value with the unlimited calculation. Finds counterexamples cheaply and reports how much of the domain was visited; does not prove absence.",
@@ -40,6 +50,21 @@ CLAIMED = {
   text="Exploration: counts recomputed by the harness from the explicitly converted map are compared with the attributes for the full map and every prefix n in 0..total+3 (and beyond); counts monotone in n; n>total equals unlimited; is_convert flag.",
   note="Under lazer Invert only relations are checked.",
   ref="DESIGN.md §4 C14"),
+ "C17": dict(
+  technique=PBT + " over a dense parameter grid with metamorphic relations (round-trip, monotonicity, inverse clock-rate scaling, HR/EZ ordering) and a differential against the values stored by the calculators",
+  text="Exploration of mode x mods x clock rate x attribute values x with_mods: build() and hit_windows() agree, with_mods values round-trip, windows monotone in OD/AR, scale inversely with clock rate (mania bound stated separately), HR>=NM>=EZ; calculators store exactly the builder's output.",
+  note="Tolerance 1e-9 for relations that involve an inverse computation; calculator agreement is exact.",
+  ref="DESIGN.md §4 C17"),
+ "C18": dict(
+  technique=PBT + " over generated setter lists and permutations: differential (Performance setters vs Difficulty), round-trip (inspect), clamp predicates and metamorphic no-op relations",
+  text="Exploration over maps x lists of setter applications (incl. infinities and far out-of-range values) x score specs: forwarding equivalence, order independence, inspect round trip, documented clamps, and no-op setters per mode.",
+  note="NaN is never passed to a setter.",
+  ref="DESIGN.md §4 C18"),
+ "C19": dict(
+  technique=PBT + " with a structural validity predicate over converted maps and time-tagged hit sounds (metamorphic pairing oracle)",
+  text="Exploration over osu maps x target x key mods 1K-10K: ordering, durations, control-point strictness, taiko sound pairing, mania column bounds and key count, catch identity.",
+  note="1/5 of source maps use the adversarial numeric profile.",
+  ref="DESIGN.md §4 C19"),
  "C15": dict(
   technique="model-based (stateful) " + PBT + ": generated call histories over next/nth/len/size_hint/adaptors checked against a reference cursor model",
   text="Exploration over call histories: a reference sequence from plain next() plus a cursor model predicts every observation (values, len, size_hint, None after exhaustion, adaptor outputs); GradualPerformance step arithmetic likewise.",
